@@ -73,9 +73,10 @@ func TestC05(t *testing.T) {
 					SamePkg:       rapid.IntRange(0, 2).Draw(rt, "samepkg") == 0,
 					FieldSettings: true,
 					Defects:       rapid.IntRange(0, 1).Draw(rt, "defects"),
-					DefectKinds:   []string{"missing", "unexported", "ambiguous-case", "unknown-field", "ambiguous-automap", "ambiguous-method", "overlap"},
+					DefectKinds:   []string{"missing", "unexported", "ambiguous-case", "unknown-field", "ambiguous-automap", "ambiguous-method", "overlap", "map-promoted"},
 					Unexported:    true,
 					Methods:       true,
+					Custom:        rapid.Bool().Draw(rt, "custom"),
 					MaxFields:     5,
 				}
 				b := gen.New(rt, o)
